@@ -243,23 +243,14 @@ theorem tight_of_follows (na nt : List Str) (pre' : List Event) (q r r₁ : Row)
         rw [ha₂, ht']
         exact hn1
 
-theorem opens_append_row (pre' : List Event) (q : Row) :
-    opens (pre' ++ [.row q]) = opens pre' ∧ closes (pre' ++ [.row q]) = closes pre' := by
-  induction pre' with
-  | nil => exact ⟨rfl, rfl⟩
-  | cons e es ih =>
-    rw [List.cons_append, opens_cons, closes_cons, opens_cons e es, closes_cons e es, ih.1, ih.2]
-    exact ⟨rfl, rfl⟩
-
 /-- **the shape of the harness's twin workbooks**: the insert row directly follows a plain action
-row and is attached to it; the rows after the block may continue from it -/
+row and is attached to it — at any block depth; the rows after the block may continue from it -/
 theorem insert_twin_nodes_follows (na nt : List Str) (pre' post rest : List Event) (q r r₁ : Row)
     (hq : PlainRow q) (hf : Follows q r)
     (he : EntryRow r₁) (hns : noStartL rest = true) (hnn : noNamesL rest = true)
     (hid : okIdsL ((pre' ++ [.row q]) ++ [.insert r (.row r₁ :: rest)] ++ post) = true)
-    (hbal : opens pre' = closes pre')
     (hnl : noLooseL post = true)
-    (hav : avoids (defsL (.row r₁ :: rest)) false 0 post = true)
+    (hav : avoidsOpen (defsL (.row r₁ :: rest)) post = true)
     {o₁ o₂ : Out}
     (h₁ : compile na nt ((pre' ++ [.row q]) ++ [.insert r (.row r₁ :: rest)] ++ post) = .ok o₁)
     (h₂ : compile na nt ((pre' ++ [.row q]) ++ twin r (.row r₁ :: rest) ++ post) = .ok o₂) :
@@ -267,9 +258,7 @@ theorem insert_twin_nodes_follows (na nt : List Str) (pre' post rest : List Even
   have hidp : okIdsL (pre' ++ [.row q]) = true := by
     rw [List.append_assoc, okIdsL_append] at hid
     exact (Bool.and_eq_true_iff.mp hid).1
-  refine insert_twin_nodes_open na nt (pre' ++ [.row q]) post rest r r₁ he hns hnn hid ?_
+  exact insert_twin_nodes_open na nt (pre' ++ [.row q]) post rest r r₁ he hns hnn hid
     (tight_of_follows na nt pre' q r r₁ hq hf he hidp) hnl hav h₁ h₂
-  rw [(opens_append_row pre' q).1, (opens_append_row pre' q).2]
-  exact hbal
 
 end Rpft.Compile
